@@ -23,6 +23,7 @@ static struct { char name[64]; unsigned val; } g_in[MAXIN];
 static int g_nin, g_loaded;
 static int g_choices[4096], g_nchoices, g_choice_pos;
 static long g_failalloc, g_alloc_count; static int g_fault_alloc_on;
+static long g_failallocs[8]; static int g_nfailallocs;      /* every 'failalloc' line (symx_fault_alloc(n > 1): several failures on one path) */
 static long g_failio, g_io_count; static char g_failio_kind[32]; static int g_fault_io_on, g_io_failed_flag, g_alloc_failed_flag;
 static FILE* g_pending_err_stream;
 static char* g_pokes[8192]; static int g_npokes;
@@ -39,7 +40,7 @@ static void load(void) {
     while (fscanf(f, "%31s", kw) == 1) {
         if (!strcmp(kw, "in")) { unsigned v; if (fscanf(f, "%127s %u", nm, &v) != 2) break; if (g_nin < MAXIN) { strncpy(g_in[g_nin].name, nm, 63); g_in[g_nin].val = v; g_nin++; } }
         else if (!strcmp(kw, "choice")) { int k; if (fscanf(f, "%d", &k) != 1) break; g_choices[g_nchoices++] = k; }
-        else if (!strcmp(kw, "failalloc")) { if (fscanf(f, "%ld", &g_failalloc) != 1) break; }
+        else if (!strcmp(kw, "failalloc")) { long fa_; if (fscanf(f, "%ld", &fa_) != 1) break; if (!g_failalloc) g_failalloc = fa_; if (g_nfailallocs < 8) g_failallocs[g_nfailallocs++] = fa_; }
         else if (!strcmp(kw, "reset") || !strcmp(kw, "poke")) {
             static char line[40000]; if (!fgets(line, sizeof line, f)) break;
             char* q = line; while (*q == ' ') q++; size_t n = strlen(q); while (n && (q[n - 1] == '\n' || q[n - 1] == ' ')) q[--n] = 0;
@@ -103,7 +104,7 @@ size_t symx_file_get(const char* name, void* buf, size_t cap) { char b[512]; FIL
 static int alloc_fails(void) {
     if (!g_fault_alloc_on) return 0;
     g_alloc_count++;
-    if (g_failalloc && g_alloc_count == g_failalloc) { g_alloc_failed_flag = 1; return 1; }
+    for (int i = 0; i < g_nfailallocs; i++) if (g_alloc_count == g_failallocs[i]) { g_alloc_failed_flag = 1; return 1; }
     return 0;
 }
 void* __wrap_malloc(size_t n) { return alloc_fails() ? NULL : __real_malloc(n); }
